@@ -342,6 +342,9 @@ def _run_entry(E, body, rr, st, gs, args, contract, first):
         E.track_pop = _specs.root_key(body) in _specs.POP_TRACK
         E.track_agree = _specs.root_key(body) in _specs.AGREE_TRACK
         E.track_fmt = _specs.root_key(body) in _specs.FMT_ROOTS
+        E.track_ownnext = _specs.root_key(body) in _specs.FMT_CLONE_ROOTS
+        E.track_ser = _specs.root_key(body) in _specs.SER_ROOTS
+        E.track_fmt = E.track_fmt or E.track_ser
         E.agree_props = _specs.AGREE_TRACK.get(_specs.root_key(body))
         # the arrays of requests the caller hands in (by value): what is scanned for each stored key
         E.agree_arrays = tuple(a[1] for a in args if isinstance(a, tuple) and a and a[0] == 'oarr' and isinstance(a[1], tuple)) \
